@@ -1,4 +1,5 @@
 import Lean.Data.Json
+import Clover.Model.Unmarshal2
 import Clover.Spec.Spec
 import Clover.Model.GoVal
 import Clover.Model.QueryBuilder
@@ -151,6 +152,22 @@ partial def parseRType (j : Json) : Except String RType := do
     let jn ← fromHex (← a[2]!.getStr?)
     let t ← parseRType a[3]!
     pure (g, c, jn, t))
+  return .struct fs
+
+/-- the richer type descriptor of `Model/Unmarshal2.lean`: null = leaf; {"s": [[goName, cloverName, jsonName, embedded, type], …]} =
+    struct; {"l": type} = slice / array; {"m": type} = map with string keys -/
+partial def parseRT (j : Json) : Except String U2.RT := do
+  if j.isNull then return .leaf
+  if let .ok e := j.getObjVal? "l" then return .list (← parseRT e)
+  if let .ok e := j.getObjVal? "m" then return .map (← parseRT e)
+  let fs ← (← (← j.getObjVal? "s").getArr?).toList.mapM (fun f => do
+    let a ← f.getArr?
+    let g ← fromHex (← a[0]!.getStr?)
+    let c ← fromHex (← a[1]!.getStr?)
+    let jn ← fromHex (← a[2]!.getStr?)
+    let e ← a[3]!.getBool?
+    let t ← parseRT a[4]!
+    pure (g, c, jn, e, t))
   return .struct fs
 
 def parseRange (j : Json) : Except String Range := do
